@@ -874,6 +874,8 @@ class DynGraph(nx.Graph):
         >>> G.add_star([0,1,2,3], t=0)
         """
         nlist = list(nodes)
+        if len(nlist) == 0:
+            return
         v = nlist[0]
         interaction = ((v, n) for n in nlist[1:])
         self.add_interactions_from(interaction, t)
@@ -921,7 +923,7 @@ class DynGraph(nx.Graph):
         >>> G.add_cycle([0,1,2,3], t=0)
         """
         nlist = list(nodes)
-        interaction = zip(nlist, nlist[1:] + [nlist[0]])
+        interaction = zip(nlist, nlist[1:] + nlist[:1])
         self.add_interactions_from(interaction, t)
 
     def to_directed(self, **kwargs):
